@@ -72,13 +72,22 @@ struct SeqCase {
 
 // ---------------------------------------------------------------------------- tables
 
-/// Byte table: blob label -> bytes.  Label "a","b","c",.. has length rank(label) * unit so that
-/// the model's unit sizes (Size in MC_C20.tla) scale to real byte counts.
+/// Byte table: blob label -> bytes.
+///
+/// Variants 0..2: label "a","b","c" has length rank(label) * unit, so the model's unit sizes
+/// (Size in MC_C20.tla) scale to real byte counts and the advisory budget can be compared.
+/// Variants 3..6: ALL blobs have the SAME length and differ only in content, so nothing in the
+/// code under test can tell two contents apart by length:
+///   3 = 64 random bytes each; 4 = 64 bytes differing only in the LAST byte;
+///   5 = 4096 bytes sharing a 4000-byte common prefix; 6 = one byte each ("A","B","C").
 struct Table {
     unit: usize,
+    equal_len: bool,
     bytes: BTreeMap<String, Vec<u8>>,
     hash: BTreeMap<String, BlobHash>,
 }
+
+const TABLE_VARIANTS: usize = 7;
 
 fn rank(label: &str) -> usize {
     match label {
@@ -101,24 +110,36 @@ fn gen_bytes(tag: &str, seed: u64, len: usize) -> Vec<u8> {
 
 fn table(labels: &[String], variant: usize, seed: u64) -> Table {
     let unit = match variant {
-        0 => 1,
-        1 => 64,
+        0 | 6 => 1,
+        1 | 3 | 4 => 64,
         _ => 4096,
     };
+    let equal_len = variant >= 3;
     let mut bytes = BTreeMap::new();
     let mut hash = BTreeMap::new();
     for l in labels {
-        let len = rank(l) * unit;
-        let v = if variant == 0 {
+        let r = rank(l) as u8;
+        let v = match variant {
             // tiny printable blobs: "A", "BB", "CCC"
-            vec![b'A' + (rank(l) as u8 - 1); len]
-        } else {
-            gen_bytes(l, seed, len)
+            0 => vec![b'A' + (r - 1); rank(l) * unit],
+            1 | 2 => gen_bytes(l, seed, rank(l) * unit),
+            3 => gen_bytes(l, seed, unit),
+            4 => {
+                let mut v = gen_bytes("common", seed, unit);
+                v[unit - 1] = r;
+                v
+            }
+            5 => {
+                let mut v = gen_bytes("common", seed, 4000);
+                v.extend(gen_bytes(l, seed, unit - 4000));
+                v
+            }
+            _ => vec![b'A' + (r - 1)],
         };
         hash.insert(l.clone(), blob_hash(&v));
         bytes.insert(l.clone(), v);
     }
-    Table { unit, bytes, hash }
+    Table { unit, equal_len, bytes, hash }
 }
 
 impl Table {
@@ -231,6 +252,7 @@ struct World<'t> {
     t: &'t Table,
     cv: usize,
     budget: usize,
+    budget_units: u64,
     store: Store,
     index: RetainedBlobIndex,
     labels: Vec<String>,
@@ -377,9 +399,15 @@ impl<'t> World<'t> {
             Store::Mem(m) => {
                 o.l = "-".to_string();
                 o.n = m.len() as u64;
+                // byte_count must be the sum of the stored lengths; it is reported in the model's
+                // units (sum of the ranks of the present blobs) so that equal-length tables compare too
                 let bc = m.byte_count();
-                o.y = if bc % self.t.unit == 0 { (bc / self.t.unit) as u64 } else { 1_000_000 + bc as u64 };
-                o.o = m.is_over_budget();
+                let want_bytes: usize = o.s.iter().map(|l| self.t.bytes[l].len()).sum();
+                let units: u64 = o.s.iter().map(|l| rank(l) as u64).sum();
+                o.y = if bc == want_bytes { units } else { 1_000_000 + bc as u64 };
+                // is_over_budget must be (byte_count > budget); reported as the model's predicate
+                let over_units = units > self.budget_units;
+                o.o = if m.is_over_budget() == (bc > self.budget) { over_units } else { !over_units };
                 if m.is_empty() != (m.len() == 0) {
                     o.l = "?is_empty".to_string();
                 }
@@ -596,17 +624,22 @@ struct SeqOutcome {
     drift: Vec<String>,
     calls: u64,
     gets: u64,
+    /// conflicting retains (coordinate bound to other content) whose two contents have EQUAL length
+    eq_len_conflicts: u64,
+    /// mismatching verified puts whose bytes have the same length as the declared blob
+    eq_len_pv: u64,
 }
 
 /// Replays one behaviour under one (byte table, coordinate table) choice.
 fn replay_seq(case: &SeqCase, t: &Table, cv: usize) -> SeqOutcome {
     let labels: Vec<String> = case.steps.first().map(|s| s.obs.g.keys().cloned().collect()).unwrap_or_default();
     let coords: Vec<String> = case.steps.first().map(|s| s.obs.x.keys().cloned().collect()).unwrap_or_default();
-    let budget = case.budget as usize * t.unit;
+    let budget = if t.equal_len { case.budget as usize * t.unit + t.unit / 2 } else { case.budget as usize * t.unit };
     let mut w = World {
         t,
         cv,
         budget,
+        budget_units: case.budget,
         store: World::open_store(&case.tier, budget, None),
         index: RetainedBlobIndex::default(),
         labels,
@@ -622,6 +655,8 @@ fn replay_seq(case: &SeqCase, t: &Table, cv: usize) -> SeqOutcome {
     };
     let mut drift: Vec<String> = Vec::new();
     let mut calls = 0u64;
+    let mut eq_len_conflicts = 0u64;
+    let mut eq_len_pv = 0u64;
     let mut before = w.observe();
     for (i, st) in case.steps.iter().enumerate() {
         let is_fault = st.op.starts_with("f_");
@@ -638,6 +673,9 @@ fn replay_seq(case: &SeqCase, t: &Table, cv: usize) -> SeqOutcome {
             "pv" => {
                 let mismatching = blob_hash(&t.bytes[&st.b]) != t.hash[&st.h];
                 if mismatching {
+                    if t.bytes[&st.b].len() == t.bytes[&st.h].len() {
+                        eq_len_pv += 1;
+                    }
                     if !res.starts_with("err:mismatch") {
                         let present = before.s.contains(&st.h);
                         let k = if tier == "memory" && present && res == "ok" {
@@ -676,6 +714,9 @@ fn replay_seq(case: &SeqCase, t: &Table, cv: usize) -> SeqOutcome {
             "retain" => {
                 let prev = before.x.get(&st.c).cloned().unwrap_or_default();
                 if prev != "-" && prev != st.b {
+                    if t.bytes.get(&prev).map(Vec::len) == Some(t.bytes[&st.b].len()) {
+                        eq_len_conflicts += 1;
+                    }
                     if res != "err:conflict" {
                         w.v("retention_conflict_not_refused", format!("step {i}: retain({}, {}) on a coordinate bound to {prev} returned {res}", st.c, st.b));
                     }
@@ -725,7 +766,7 @@ fn replay_seq(case: &SeqCase, t: &Table, cv: usize) -> SeqOutcome {
     if let Some(r) = root {
         let _ = std::fs::remove_dir_all(r);
     }
-    SeqOutcome { viol, drift, calls, gets }
+    SeqOutcome { viol, drift, calls, gets, eq_len_conflicts, eq_len_pv }
 }
 
 /// A behaviour counts as non-trivial when it exercises a clause of the property beyond plain
@@ -767,8 +808,9 @@ fn run_seq(i: usize, v: &Value, seed: u64, stats: &mut Stats) -> Value {
     if nontrivial(&case) {
         stats.nontrivial += 1;
     }
-    // memory: every byte table; disk: one table chosen by case number (file-system calls dominate)
-    let tvs: Vec<usize> = if case.tier == "mem" { vec![0, 1, 2] } else { vec![[0, 1, 0, 2][i % 4]] };
+    // memory: every byte table (the rank-length ones and the equal-length ones); disk: one table
+    // chosen by case number (file-system calls dominate), cycling through all of them
+    let tvs: Vec<usize> = if case.tier == "mem" { (0..TABLE_VARIANTS).collect() } else { vec![[0, 3, 1, 4, 6, 5, 0, 3, 2, 4][i % 10]] };
     let cvs: Vec<usize> = if has_retain { (0..COORD_VARIANTS).collect() } else { vec![0] };
     for tv in &tvs {
         let t = table(&labels, *tv, seed);
@@ -786,6 +828,8 @@ fn run_seq(i: usize, v: &Value, seed: u64, stats: &mut Stats) -> Value {
             stats.replays += 1;
             stats.calls += out.calls;
             stats.gets += out.gets;
+            stats.eq_len_conflicts += out.eq_len_conflicts;
+            stats.eq_len_pv += out.eq_len_pv;
             if let Some((k, d)) = out.viol.first() {
                 return json!({"i": i, "v": "violation", "kind": k, "detail": d, "all": out.viol.iter().map(|x| x.0.clone()).collect::<Vec<_>>(), "drift": out.drift, "table": tv, "coords": cv});
             }
@@ -801,6 +845,10 @@ fn run_seq(i: usize, v: &Value, seed: u64, stats: &mut Stats) -> Value {
 
 #[derive(Default, Clone)]
 struct Stats {
+    eq_len_conflicts: u64,
+    eq_len_pv: u64,
+    sweep_same_len_faults: u64,
+    sweep_len_changing_faults: u64,
     export: u64,
     export_attempts: u64,
     envelope_evals: u64,
@@ -825,6 +873,9 @@ struct Sweep {
     drift: Vec<String>,
     faults: u64,
     queries: u64,
+    /// corruptions that keep the file length (bit flips, same-length foreign bytes) / change it
+    same_len_faults: u64,
+    len_changing_faults: u64,
 }
 
 impl Sweep {
@@ -839,6 +890,14 @@ impl Sweep {
     fn check_all(&mut self, victim: usize, what: &str, expect: &str) {
         self.faults += 1;
         let blobs = self.blobs.clone();
+        if expect == "err" {
+            let raw_len = std::fs::metadata(blob_file(&self.root, &blobs[victim].0)).map(|m| m.len()).unwrap_or(u64::MAX);
+            if raw_len == blobs[victim].1.len() as u64 {
+                self.same_len_faults += 1;
+            } else {
+                self.len_changing_faults += 1;
+            }
+        }
         for (j, (h, bytes)) in blobs.iter().enumerate() {
             self.queries += 1;
             let r = self.tier.get(h);
@@ -918,7 +977,7 @@ fn run_sweep(i: usize, v: &Value, stats: &mut Stats) -> Value {
             std::process::exit(2)
         }
     };
-    let mut sw = Sweep { tier, root: root.clone(), blobs: Vec::new(), viol: Vec::new(), drift: Vec::new(), faults: 0, queries: 0 };
+    let mut sw = Sweep { tier, root: root.clone(), blobs: Vec::new(), viol: Vec::new(), drift: Vec::new(), faults: 0, queries: 0, same_len_faults: 0, len_changing_faults: 0 };
     let r = util::catch(|| {
         let mut seen = BTreeSet::new();
         for (k, len) in lens.iter().enumerate() {
@@ -1036,6 +1095,8 @@ fn run_sweep(i: usize, v: &Value, stats: &mut Stats) -> Value {
     });
     let _ = std::fs::remove_dir_all(&root);
     stats.sweep_faults += sw.faults;
+    stats.sweep_same_len_faults += sw.same_len_faults;
+    stats.sweep_len_changing_faults += sw.len_changing_faults;
     stats.sweep_queries += sw.queries;
     if let Err(p) = r {
         return json!({"i": i, "v": "violation", "kind": "disk_panic", "detail": format!("panic in code under test: {p}")});
@@ -1105,6 +1166,10 @@ pub fn run(args: &[String]) -> i32 {
                 }
             }
             total.seq += st.seq;
+            total.eq_len_conflicts += st.eq_len_conflicts;
+            total.eq_len_pv += st.eq_len_pv;
+            total.sweep_same_len_faults += st.sweep_same_len_faults;
+            total.sweep_len_changing_faults += st.sweep_len_changing_faults;
             total.sweep += st.sweep;
             total.nontrivial += st.nontrivial;
             total.replays += st.replays;
@@ -1159,6 +1224,8 @@ pub fn run(args: &[String]) -> i32 {
     out.line(&json!({"summary": true, "cases": n_cases, "seq": total.seq, "sweep": total.sweep, "export": total.export,
         "export_attempts": total.export_attempts, "envelope_evals": total.envelope_evals, "export_errors": export_errors, "ok": total.ok,
         "violation": total.violation, "drift": total.drift, "nontrivial": total.nontrivial,
+        "eq_len_retain_conflicts": total.eq_len_conflicts, "eq_len_pv_mismatches": total.eq_len_pv,
+        "sweep_same_len_faults": total.sweep_same_len_faults, "sweep_len_changing_faults": total.sweep_len_changing_faults,
         "replays": total.replays, "calls": total.calls,
         "ok_reads_hash_checked": total.gets, "sweep_faults": total.sweep_faults, "sweep_queries": total.sweep_queries}));
     out.finish();
